@@ -158,8 +158,31 @@ def gen_program(rng):
                 env[n] = "arr"
         elif r < 0.6 and pick("arr"):
             n = rng.choice([fresh("carr")] + [x for x, c in env.items() if c == "arr"][:1])
-            prog.append([n, None, ["*", [pick("arr"), pick("cplx") or ["cz", "1j"]]], []])
+            # a complex scalar and a real array, in EITHER order and under every operator that mixes them
+            # (the kind rule for 'scalar first' and the one for 'array first' are separate branches of unify)
+            z_, a_ = pick("cplx") or ["cz", "1j"], pick("arr")
+            q = rng.random()
+            if q < 0.3:
+                e = ["*", [a_, z_]]
+            elif q < 0.55:
+                e = ["*", [z_, a_]]
+            elif q < 0.7:
+                e = ["+", [z_, a_]]
+            elif q < 0.8:
+                e = ["+", [a_, z_]]
+            elif q < 0.9:
+                e = ["*", [["v", "<dt>"], z_, a_]]
+            else:
+                e = ["*", [["cz", "2j"], a_]]
+            prog.append([n, None, e, []])
             env[n] = "carr"
+            if rng.random() < 0.4:
+                # the norm of a complex ARRAY is declared real
+                nn = fresh("real")
+                if env.get(nn) in (None, "real"):
+                    prog.append([nn, None, ["call", rng.choice(["<builtin>norm_2", "<builtin>norm_1", "<builtin>norm_inf"]),
+                                            [["v", n]], []], []])
+                    env[nn] = "real"
         elif r < 0.72:
             n = fresh("user")
             if env.get(n) in (None, "user"):
